@@ -499,6 +499,14 @@ def _resolve_named_consts(prog):
         walk(b.blocks)
 
 
+def prog_of(body):
+    """the loaded Program a Body belongs to (bodies do not carry a back reference)"""
+    for p in _PROGRAMS.values():
+        if p.bodies.get(body.path) is body or p.elab.get(body.path) is body:
+            return p
+    return None
+
+
 def load(config, fresh=False):
     key = config
     if key in _PROGRAMS and not fresh:
